@@ -17,6 +17,8 @@ pub struct Plan {
     pub opt_fail_at: AtomicI64,
     /// metric drops pairs whose attribute distance exceeds this
     pub metric_limit: AtomicI64,
+    /// post-processing of the results of one (candidate, stored track) pair keeps the smallest distance(s) only
+    pub post_best: AtomicBool,
 }
 
 impl Plan {
@@ -90,6 +92,8 @@ pub enum Upd {
     Wasted,
     Tag1,
     Fail,
+    /// from now on `baked()` itself fails
+    Broken,
     /// direct assignment (test set-up of C10 stores)
     Set { tag: i64, st: St },
 }
@@ -102,6 +106,7 @@ impl Upd {
             "wasted" => Some(Upd::Wasted),
             "tag1" => Some(Upd::Tag1),
             "fail" => Some(Upd::Fail),
+            "broken" => Some(Upd::Broken),
             o => panic!("update {}", o),
         }
     }
@@ -114,6 +119,7 @@ impl TrackAttributesUpdate<Attrs> for Upd {
             Upd::Ready => a.st = St::R,
             Upd::Wasted => a.st = St::W,
             Upd::Tag1 => a.tag = 1,
+            Upd::Broken => a.st = St::E,
             Upd::Set { tag, st } => {
                 a.tag = *tag;
                 a.st = *st;
@@ -208,6 +214,14 @@ impl ObservationMetric<Attrs, Val> for Metric {
             _ => None,
         };
         Some((am, fd))
+    }
+
+    fn postprocess_distances(&self, unfiltered: Vec<similari::track::ObservationMetricOk<Val>>) -> Vec<similari::track::ObservationMetricOk<Val>> {
+        if !self.plan.post_best.load(Ordering::SeqCst) {
+            return unfiltered;
+        }
+        let best = unfiltered.iter().filter_map(|r| r.attribute_metric.as_ref().map(|m| m.d)).min();
+        unfiltered.into_iter().filter(|r| r.attribute_metric.as_ref().map(|m| Some(m.d) == best).unwrap_or(true)).collect()
     }
 
     fn optimize(
